@@ -48,5 +48,8 @@ for d in dirs:
     if info:
         print("     " + info.replace("\n", "\n     "))
 print(json.dumps(res))
+for a in sys.argv[1:]:
+    if a.startswith("--out="):
+        json.dump(detail, open(a[6:], "w"), indent=1, sort_keys=True)
 if "--write" in sys.argv:
     json.dump(detail, open("/verif/seeded/RESULTS.json", "w"), indent=1, sort_keys=True)
